@@ -149,6 +149,9 @@ pub struct Link {
     /// WebSocket client role: after the closing handshake a client waits for the server to close the
     /// transport, i.e. its source ends only when the peer's socket object is gone
     pub waits_for_transport_close: [bool; 2],
+    /// how back-pressure shows: false = `poll_ready` pends while the window is full (a bounded sink);
+    /// true = `poll_ready` is always ready and `poll_flush` pends instead (tokio-tungstenite's way)
+    pub backpressure_in_flush: bool,
     /// tungstenite ignores data frames that arrive after the local side has sent Close
     pub drop_data_after_close_sent: bool,
     pub t0: Instant,
@@ -169,7 +172,7 @@ pub type L = Arc<Mutex<Link>>;
 impl Link {
     pub fn new(cap: usize, latency_max_ms: u64, seq: Seq, lat_seed: u64) -> L {
         let mk = || Dir { inflight: VecDeque::new(), delivered: VecDeque::new(), sink_closed: false, close_owed: false, close_consumed: false, rx_waker: None, tx_waker: None, capacity: cap, sink_err: false, src: SrcMode::Normal, hold: false, latency_max_ms, last_ready: None, receiver_gone: false, sender_gone: false };
-        Arc::new(Mutex::new(Link { d: [mk(), mk()], seq, evs: vec![], auto_pong: [true, true], pending_reply: [None, None], waits_for_transport_close: [false, false], drop_data_after_close_sent: false, t0: Instant::now(), lat_rng: simcore::Prng::new(lat_seed), n_delivered: 0, backpressure_hits: 0, sink_err_seen: [false; 2], src_ended_seen: [false; 2] }))
+        Arc::new(Mutex::new(Link { d: [mk(), mk()], seq, evs: vec![], auto_pong: [true, true], pending_reply: [None, None], waits_for_transport_close: [false, false], backpressure_in_flush: false, drop_data_after_close_sent: false, t0: Instant::now(), lat_rng: simcore::Prng::new(lat_seed), n_delivered: 0, backpressure_hits: 0, sink_err_seen: [false; 2], src_ended_seen: [false; 2] }))
     }
     fn ev(&mut self, stage: Stage, from: usize, w: &Arc<Wire>, injected: bool) {
         let seq = self.seq.tick();
@@ -288,7 +291,7 @@ impl SimWs {
             l.sink_err_seen[me] = true;
             return Poll::Ready(Err(werr()));
         }
-        if l.d[me].inflight.len() + l.d[me].delivered.len() >= l.d[me].capacity {
+        if !l.backpressure_in_flush && l.d[me].inflight.len() + l.d[me].delivered.len() >= l.d[me].capacity {
             l.d[me].tx_waker = Some(cx.waker().clone());
             l.backpressure_hits += 1;
             return Poll::Pending;
@@ -318,30 +321,41 @@ impl WebSocket for SimWs {
         l.flush_reply(me);
         Ok(())
     }
-    fn poll_flush_unpin(&mut self, _cx: &mut Context<'_>) -> Poll<Result<(), penguin_mux::Error>> {
+    fn poll_flush_unpin(&mut self, cx: &mut Context<'_>) -> Poll<Result<(), penguin_mux::Error>> {
         let mut l = self.link.lock().unwrap();
         let me = self.me;
         l.flush_reply(me);
-        if l.d[self.me].sink_err {
-            l.sink_err_seen[self.me] = true;
+        if l.d[me].sink_err || l.d[me].receiver_gone {
+            l.sink_err_seen[me] = true;
             return Poll::Ready(Err(werr()));
+        }
+        if l.backpressure_in_flush && l.d[me].inflight.len() + l.d[me].delivered.len() > l.d[me].capacity {
+            l.d[me].tx_waker = Some(cx.waker().clone());
+            l.backpressure_hits += 1;
+            return Poll::Pending;
         }
         Poll::Ready(Ok(()))
     }
     fn poll_close_unpin(&mut self, cx: &mut Context<'_>) -> Poll<Result<(), penguin_mux::Error>> {
-        {
-            let mut l = self.link.lock().unwrap();
-            let me = self.me;
-            l.flush_reply(me);
-            if l.d[self.me].sink_closed {
-                return Poll::Ready(Ok(()));
-            }
+        let mut l = self.link.lock().unwrap();
+        let me = self.me;
+        l.flush_reply(me);
+        if l.d[me].sink_closed {
+            return Poll::Ready(Ok(()));
         }
-        match self.poll_space(cx) {
-            Poll::Ready(Ok(())) => {}
-            other => return other,
+        if l.d[me].sink_err || l.d[me].receiver_gone {
+            l.sink_err_seen[me] = true;
+            return Poll::Ready(Err(werr()));
         }
-        let _ = self.start_send_unpin(Message::Close);
+        // the Close (our own, or the reply we owe) needs room like any other message
+        if l.d[me].inflight.len() + l.d[me].delivered.len() >= l.d[me].capacity {
+            l.d[me].tx_waker = Some(cx.waker().clone());
+            l.backpressure_hits += 1;
+            return Poll::Pending;
+        }
+        l.pending_reply[me] = None;
+        l.d[me].sink_closed = true;
+        l.enqueue(me, Message::Close, false);
         Poll::Ready(Ok(()))
     }
     fn poll_next_unpin(&mut self, cx: &mut Context<'_>) -> Poll<Option<Result<Message, penguin_mux::Error>>> {
